@@ -115,8 +115,11 @@ CLAIMS.update({
             "against the oracles 'well-formed => silent', 'malformed-by-construction => Error', plus exact correspondence with the parser model.",
             "Coq proof (Error-free => derivable in the regenerated grammar, loud failure, identifiers never keywords, diagnostic preservation) + construction-based oracles + exact differential correspondence",
             PARSE_NOTE),
-    "C04": ("proof", "PARTIAL proof. Coq theorems: every position built through Position::new is a character boundary inside the text and carries the "
-            "lookup's line/column (C04_position, C04_range_partial, C04_boundary). Exactness and nesting are decided by text-based oracles on "
+    "C04": ("proof", "PARTIAL proof. Coq theorems: every position of everything add_content stores -- every range of every tree node, every syntax "
+            "diagnostic -- is the lookup's answer at a character boundary inside the text (C04_stored_positions: all texts, any tables); "
+            "every diagnostic validation adds to a stored tree sits, with its related ranges, on the range of a node of that tree "
+            "(C04_validation_on_nodes); Position::new is sound (C04_position, C04_range_partial, C04_boundary). NOT proved: start <= end, "
+            "exactness of name ranges, nesting. Those are decided by text-based oracles on "
             "the implementation's output (name range covers exactly the name as written, full ranges first-to-last token, children inside "
             "parents, siblings increasing, syntax diagnostics on exactly the offending token, validation diagnostics on a node's range, the "
             "lookup table checked against the line/column specification) and by exact correspondence with the parser model.",
